@@ -278,9 +278,13 @@ pub fn digest_e(id: &[u8], pk: &(BigUint, BigUint), msg: &[u8]) -> BigUint {
 
 /// GB/T 32918.2 signing with a given nonce. None = the standard's retry conditions (r = 0, r + k = n, s = 0).
 pub fn sign(d: &BigUint, id: &[u8], msg: &[u8], k: &BigUint) -> Option<([u8; 32], [u8; 32])> {
-    let c = curve();
     let pk = mul(d, &g())?;
-    let e = digest_e(id, &pk, msg);
+    sign_e(d, &digest_e(id, &pk, msg), k)
+}
+
+/// steps A3..A7 for a given e (any 256-bit integer) and nonce
+pub fn sign_e(d: &BigUint, e: &BigUint, k: &BigUint) -> Option<([u8; 32], [u8; 32])> {
+    let c = curve();
     let (x1, _) = mul(k, &g())?;
     let r = (e + x1) % &c.n;
     if r.is_zero() || (&r + k) == c.n {
@@ -296,6 +300,11 @@ pub fn sign(d: &BigUint, id: &[u8], msg: &[u8], k: &BigUint) -> Option<([u8; 32]
 
 /// GB/T 32918.2 verification of a 64-byte r||s. Anything else is rejected.
 pub fn verify(pk: &(BigUint, BigUint), id: &[u8], msg: &[u8], sig: &[u8]) -> bool {
+    verify_e(pk, &digest_e(id, pk, msg), sig)
+}
+
+/// steps B1..B7 for a given e (any 256-bit integer)
+pub fn verify_e(pk: &(BigUint, BigUint), e: &BigUint, sig: &[u8]) -> bool {
     let c = curve();
     if sig.len() != 64 {
         return false;
@@ -305,7 +314,6 @@ pub fn verify(pk: &(BigUint, BigUint), id: &[u8], msg: &[u8], sig: &[u8]) -> boo
     if r.is_zero() || s.is_zero() || r >= c.n || s >= c.n {
         return false;
     }
-    let e = digest_e(id, pk, msg);
     let t = (&r + &s) % &c.n;
     if t.is_zero() {
         return false;
